@@ -11,7 +11,10 @@ rc, o = sh("git -C /repo status --porcelain")
 if o.strip():
     print("/repo has uncommitted changes"); sys.exit(2)
 bad = 0
-for d in sorted(glob.glob(f"{ROOT}/seeded/C??-*")):
+dirs = sorted(glob.glob(f"{ROOT}/seeded/C??-*"))
+if os.environ.get("REGR_ORDER"):      # a file with one change name per line: run exactly these, in this order
+    dirs = [f"{ROOT}/seeded/{l.strip()}" for l in open(os.environ["REGR_ORDER"]) if l.strip()]
+for d in dirs:
     name = os.path.basename(d)
     if sel and not any(name.startswith(s) for s in sel):
         continue
